@@ -16,7 +16,7 @@ RULE = ("histories of ~18 steps over 1-3 proxies and 1-5 concurrently open strea
         "{0,5} x ITER_STREAM_LINGER {0,3} x both server types. distinct = (history hash, step); non-trivial = the step concerns an open stream")
 ASSUMPTIONS = ["the virtual clock starts at 1e9 (a linger stamp of 0 means 'none' in Pyro's code)", "after every client-side disconnect / oneway close the harness waits for the server-side event (10 s watchdog, expiry = inconclusive)",
                "a stream whose deadline has passed may be forgotten at any time until the next explicit housekeeping step, after which it must be gone"]
-REQUIRED_REACH = ["items_ok", "stopiteration_ok", "generator_exception_ok", "forgotten_ok", "reconnect_continues", "linger_expired", "lifetime_expired", "table_checked", "streaming_disabled_ok", "racing_reconnects", "server_ended_connections", "housekeeping_during_fetch"]
+REQUIRED_REACH = ["items_ok", "stopiteration_ok", "generator_exception_ok", "forgotten_ok", "reconnect_continues", "linger_expired", "lifetime_expired", "table_checked", "streaming_disabled_ok", "racing_reconnects", "server_ended_connections", "housekeeping_during_fetch", "histories_under_one_correlation_id"]
 SHARD_TIMEOUT = {"quick": 240, "thorough": 3000}
 
 
@@ -107,6 +107,12 @@ def run_history(fx, vclock, rec, r, cfg, nsteps, hh):
     nprox = r.randrange(1, 4)
     proxies = []
     conns = []
+    # half of the histories run under ONE client-chosen correlation id (an application tracing a whole transaction): every request of the
+    # history, stream opens included, carries the same id
+    import uuid as _uuid
+    P.callcontext.current_context.correlation_id = _uuid.UUID(int=r.randrange(1, 2 ** 64)) if r.random() < 0.5 else None
+    if P.callcontext.current_context.correlation_id:
+        rec.count("histories_under_one_correlation_id")
 
     def connect(i):
         p = proxies[i]
